@@ -169,7 +169,26 @@ fn gen_scope<R: Rng>(rng: &mut R, depth: usize, out: &mut String) {
 
 pub fn random_input<R: Rng>(rng: &mut R) -> String {
     let mut s = String::new();
-    match rng.gen_range(0..10) {
+    match rng.gen_range(0..11) {
+        10 => {
+            // deep nesting: 9..40 scopes open at once (indentation far beyond the everyday case)
+            let depth = rng.gen_range(9..40);
+            let mut closers = Vec::new();
+            for _ in 0..depth {
+                let (o, c) = [('{', '}'), ('(', ')'), ('<', '>')][rng.gen_range(0..3)];
+                s.push_str(["x", "ab", ""][rng.gen_range(0..3)]);
+                s.push(o);
+                if o != '{' {
+                    // make the scope big: more than 32 characters before it closes
+                    s.push_str("aaaaaaaaaaaaaaaaaaaaaaaaaaaaaaaaaaaa,");
+                }
+                closers.push(c);
+            }
+            s.push_str("u8,u8");
+            while let Some(c) = closers.pop() {
+                s.push(c);
+            }
+        }
         0 => {
             // unbalanced closers / openers
             let n = rng.gen_range(1..60);
